@@ -142,6 +142,65 @@ theorem specAppend_nothing_dropped {α} (z : α) (s1 s2 : Img α) (ps : Int) (h1
     have : ps.toNat ≤ q + ps.toNat ∧ q + ps.toNat < ps.toNat + s2.npix := by omega
     simp [this]
 
+/-- PROPERTY.  Negative shift `pixshift = -k`: spec1 is moved right by exactly k pixels, spec2 is not moved. -/
+theorem specAppend_shift_neg {α} (z : α) (s1 s2 : Img α) (k : Nat) (h1 : Img.WF s1) (h2 : Img.WF s2) :
+    let r := specAppend z s1 s2 (-(k : Int))
+    r.npix = max (s1.npix + k) s2.npix ∧ Img.WF r ∧ r.rows.length = s1.rows.length + s2.rows.length ∧
+    (∀ i p, i < s1.rows.length → cell z r i p = if k ≤ p ∧ p < k + s1.npix then cell z s1 i (p - k) else z) ∧
+    (∀ i p, i < s2.rows.length → cell z r (s1.rows.length + i) p = if p < s2.npix then cell z s2 i p else z) := by
+  have e1 : (- -(k : Int)).toNat = k := by omega
+  have e2 : (-(k : Int)).toNat = 0 := by omega
+  have := specAppend_spec z s1 s2 (-(k : Int)) h1 h2
+  simp only [e1, e2, Nat.add_zero, Nat.zero_le, true_and, Nat.zero_add, Nat.sub_zero] at this
+  exact this
+
+/-- PROPERTY.  Positive shift `pixshift = k`: spec2 is moved right by exactly k pixels, spec1 is not moved. -/
+theorem specAppend_shift_pos {α} (z : α) (s1 s2 : Img α) (k : Nat) (h1 : Img.WF s1) (h2 : Img.WF s2) :
+    let r := specAppend z s1 s2 (k : Int)
+    r.npix = max s1.npix (s2.npix + k) ∧ Img.WF r ∧ r.rows.length = s1.rows.length + s2.rows.length ∧
+    (∀ i p, i < s1.rows.length → cell z r i p = if p < s1.npix then cell z s1 i p else z) ∧
+    (∀ i p, i < s2.rows.length →
+      cell z r (s1.rows.length + i) p = if k ≤ p ∧ p < k + s2.npix then cell z s2 i (p - k) else z) := by
+  have e1 : (-(k : Int)).toNat = 0 := by omega
+  have e2 : ((k : Int)).toNat = k := by omega
+  have := specAppend_spec z s1 s2 (k : Int) h1 h2
+  simp only [e1, e2, Nat.add_zero, Nat.zero_le, true_and, Nat.zero_add, Nat.sub_zero] at this
+  exact this
+
+/-- PROPERTY.  Empty blocks, as the code handles them (any shift): a block without rows contributes no row (but its
+pixel count still enters the width `max(npix1 + nadd1, npix2 + nadd2)`), the other block is placed as usual; a block
+without pixels contributes all-zero rows; two blocks without rows give an array without rows. -/
+theorem specAppend_empty {α} (z : α) (s1 s2 : Img α) (ps : Int) (h1 : Img.WF s1) (h2 : Img.WF s2) :
+    let r := specAppend z s1 s2 ps
+    let a1 := (-ps).toNat
+    let a2 := ps.toNat
+    (s1.rows = [] → r.rows.length = s2.rows.length ∧ ∀ i p, i < s2.rows.length →
+      cell z r i p = if a2 ≤ p ∧ p < a2 + s2.npix then cell z s2 i (p - a2) else z) ∧
+    (s2.rows = [] → r.rows.length = s1.rows.length ∧ ∀ i p, i < s1.rows.length →
+      cell z r i p = if a1 ≤ p ∧ p < a1 + s1.npix then cell z s1 i (p - a1) else z) ∧
+    (s1.npix = 0 → ∀ i p, i < s1.rows.length → cell z r i p = z) ∧
+    (s2.npix = 0 → ∀ i p, i < s2.rows.length → cell z r (s1.rows.length + i) p = z) ∧
+    (s1.rows = [] → s2.rows = [] → r.rows = []) := by
+  intro r a1 a2
+  obtain ⟨_, _, hl, hc1, hc2⟩ := specAppend_spec z s1 s2 ps h1 h2
+  refine ⟨?_, ?_, ?_, ?_, ?_⟩
+  · intro he
+    have h0 : s1.rows.length = 0 := by simp [he]
+    refine ⟨by simp only [r]; omega, ?_⟩
+    intro i p hi
+    have := hc2 i p hi
+    rw [h0, Nat.zero_add] at this
+    exact this
+  · intro he
+    have h0 : s2.rows.length = 0 := by simp [he]
+    exact ⟨by simp only [r]; omega, hc1⟩
+  · intro h0 i p hi
+    rw [hc1 i p hi, if_neg (by omega)]
+  · intro h0 i p hi
+    rw [hc2 i p hi, if_neg (by omega)]
+  · intro e1 e2
+    simp [r, specAppend, e1, e2]
+
 /-! ## PROPERTY: the plate-MJD key -/
 
 /-- PROPERTY.  `(plate << 16) + mjd` identifies the pair when `mjd < 2^16`. -/
@@ -842,6 +901,571 @@ theorem readspec_vec {α τ : Type} [Scalar α] (argsort : List Nat → List Nat
   simp only [readspec, normalize_vec (latestMjd files) pv mv fv h1 h2 hn]
   rfl
 
+/-! ## extension: `znum=` and `fiber=None` (model `readspecX`, end of Model/SpecOrder.lean) -/
+
+section Ext
+variable {α τ : Type} [Scalar α]
+
+theorem stepOk_eq_G (f : PlateFile α τ) (p rows : List Nat) (st : Option (Acc α τ)) :
+    stepOk f p rows st = stepOkG f p rows (f.zans.map (fun t => rows.map t)) st := by
+  cases st <;> rfl
+
+/-- the redshift table that `znum=k` reads for a file with `nper` fits per fibre: row r ↦ fit k of row r -/
+def zTable (z : ZAll τ) (k : Int) : Nat → τ := fun r => z.row (r * z.nper + (k - 1).toNat)
+
+/-- the survey whose redshift tables are the `znum=k` selections of the spZall files -/
+def withZ (S : Survey α τ) (Z : ZSurvey τ) (k : Int) : Survey α τ := fun p m =>
+  (S p m).map (fun f => { f with zans := (Z p m).map (fun z => zTable z k) })
+
+omit [Scalar α] in
+theorem zIndex_valid (z : ZAll τ) (nfib : Nat) (k x : Int) (hrows : z.nrows = nfib * z.nper)
+    (hk1 : 1 ≤ k) (hk2 : k ≤ z.nper) (hx1 : 1 ≤ x) (hx2 : x ≤ nfib) :
+    zIndex z k x = some ((x - 1).toNat * z.nper + (k - 1).toNat) := by
+  obtain ⟨r, rfl⟩ : ∃ r : Nat, x = (r : Int) + 1 := ⟨(x - 1).toNat, by omega⟩
+  obtain ⟨j, rfl⟩ : ∃ j : Nat, k = (j : Int) + 1 := ⟨(k - 1).toNat, by omega⟩
+  have h1 : (r + 1) * z.nper ≤ nfib * z.nper := Nat.mul_le_mul_right _ (by omega)
+  rw [Nat.succ_mul] at h1
+  have e1 : (r : Int) + 1 - 1 = r := by omega
+  have e2 : (j : Int) + 1 - 1 = j := by omega
+  have e : (r : Int) * (z.nper : Int) + ((j : Int) + 1) - 1 = ((r * z.nper + j : Nat) : Int) := by
+    rw [Int.natCast_add, Int.natCast_mul]; omega
+  simp only [zIndex, npIndex, e1, e2, Int.toNat_natCast, e, hrows]
+  rw [if_pos (by constructor <;> omega)]
+
+theorem stepX_znum_eq (S : Survey α τ) (Z : ZSurvey τ) (k : Int) (pv mv : List Nat) (fv : List Int)
+    (st : Option (Acc α τ)) (u : Nat) (f : PlateFile α τ)
+    (hS : S (u >>> 16) (u &&& ((1 <<< 16) - 1)) = some f)
+    (hfib : ∀ i ∈ idxOf pv mv u, 1 ≤ fv.getD i 0 ∧ fv.getD i 0 ≤ f.nfib)
+    (hz : ∀ z, Z (u >>> 16) (u &&& ((1 <<< 16) - 1)) = some z → z.nrows = f.nfib * z.nper ∧ 1 ≤ k ∧ k ≤ z.nper) :
+    stepX S Z (some k) pv mv fv st u = step (withZ S Z k) pv mv fv st u := by
+  have hall : ((idxOf pv mv u).map (fun i => fv.getD i 0)).all (fun x => (rowIndex f.nfib x).isSome) = true := by
+    simp only [List.all_eq_true, List.mem_map]
+    rintro x ⟨i, hi, rfl⟩
+    rw [rowIndex_valid _ _ (hfib i hi).1 (hfib i hi).2]; rfl
+  cases hZ : Z (u >>> 16) (u &&& ((1 <<< 16) - 1)) with
+  | none =>
+    simp only [stepX, step, withZ, hS, hZ, Option.map_some, Option.map_none, hall, stepOk_eq_G]
+    rfl
+  | some z =>
+    obtain ⟨z1, z2, z3⟩ := hz z hZ
+    have hzall : ((idxOf pv mv u).map (fun i => fv.getD i 0)).all (fun x => (zIndex z k x).isSome) = true := by
+      simp only [List.all_eq_true, List.mem_map]
+      rintro x ⟨i, hi, rfl⟩
+      rw [zIndex_valid z f.nfib k _ z1 z2 z3 (hfib i hi).1 (hfib i hi).2]; rfl
+    have hzrows : ((idxOf pv mv u).map (fun i => fv.getD i 0)).map (fun x => z.row ((zIndex z k x).getD 0))
+        = (((idxOf pv mv u).map (fun i => fv.getD i 0)).map (fun x => (rowIndex f.nfib x).getD 0)).map (zTable z k) := by
+      simp only [List.map_map]
+      apply List.map_congr_left
+      intro i hi
+      simp only [Function.comp_def, zTable]
+      rw [zIndex_valid z f.nfib k _ z1 z2 z3 (hfib i hi).1 (hfib i hi).2,
+        rowIndex_valid _ _ (hfib i hi).1 (hfib i hi).2]
+      rfl
+    simp only [stepX, step, withZ, hS, hZ, Option.map_some, hall, hzall, hzrows, stepOk_eq_G]
+    rfl
+
+
+theorem stepX_none (S : Survey α τ) (Z : ZSurvey τ) (pv mv : List Nat) (fv : List Int) :
+    stepX S Z none pv mv fv = step S pv mv fv := by
+  funext st u
+  simp only [stepX, step]
+  split
+  · rfl
+  · split
+    · rfl
+    · rw [stepOk_eq_G]
+
+/-- with `znum` unset the extended model is the model the theorems above are about -/
+theorem readspecCoreX_none (argsort : List Nat → List Nat) (S : Survey α τ) (Z : ZSurvey τ)
+    (pv mv : List Nat) (fv : List Int) :
+    readspecCoreX argsort S Z none pv mv fv = readspecCore argsort S pv mv fv := by
+  simp only [readspecCoreX, readspecCore, stepX_none]
+
+/-- PROPERTY (bridge).  `readspecX` with `fiber` given and no `znum` is `readspec`: every theorem about
+`readspec` / `readspecCore` speaks about the extended entry point the driver runs. -/
+theorem readspecX_plain (argsort : List Nat → List Nat) (S : Survey α τ) (Z : ZSurvey τ)
+    (files : List (Nat × Nat)) (pl : Option (List PlateListRow)) (r2 r1 : String)
+    (platein : Arg Nat) (mjd : Option (Arg Nat)) (fiber : Arg Int) :
+    readspecX argsort S Z files pl r2 r1 platein mjd (some fiber) none = readspec argsort S files platein mjd fiber := by
+  simp only [readspecX, readspec, readspecCoreX_none]
+
+theorem foldlM_congr_mem {β γ ε : Type} (f g : β → γ → Except ε β) (l : List γ)
+    (h : ∀ x ∈ l, ∀ b, f b x = g b x) (b : β) : l.foldlM f b = l.foldlM g b := by
+  induction l generalizing b with
+  | nil => rfl
+  | cons x xs ih =>
+    rw [List.foldlM_cons, List.foldlM_cons, h x (by simp) b]
+    congr 1
+    funext b'
+    exact ih (fun y hy => h y (by simp [hy])) b'
+
+/-- the domain of the `znum=k` statements: as `Domain`, but the redshifts come from spZall
+(`zf = none`: no requested plate-MJD has the file; `some t`: every one has it, `t i` being the file of
+request i, with `nfib_i * nper_i` rows and at least `k` fits per fibre); spZbest is not looked at -/
+structure DomainZ (S : Survey α τ) (Z : ZSurvey τ) (k : Int) (pv mv : List Nat) (fv : List Int)
+    (files : Nat → PlateFile α τ) (zf : Option (Nat → ZAll τ)) (tt : Option (Nat → Nat → τ)) : Prop where
+  len_mv : mv.length = pv.length
+  len_fv : fv.length = pv.length
+  mjd_lt : ∀ i, i < pv.length → mv.getD i 0 < 2 ^ 16
+  file : ∀ i, i < pv.length → S (pv.getD i 0) (mv.getD i 0) = some (files i)
+  fiber : ∀ i, i < pv.length → 1 ≤ fv.getD i 0 ∧ fv.getD i 0 ≤ (files i).nfib
+  rect : ∀ i, i < pv.length → ∀ h ∈ imgHdus, h ≠ 7 → ∀ r, r < (files i).nfib →
+    ((files i).img h r).length = (files i).npix
+  tsobj : ∀ i, i < pv.length → (files i).tsobj = tt.map (fun t => t i)
+  zall : ∀ i, i < pv.length → Z (pv.getD i 0) (mv.getD i 0) = zf.map (fun t => t i)
+  shape : ∀ t, zf = some t → ∀ i, i < pv.length →
+    (t i).nrows = (files i).nfib * (t i).nper ∧ 1 ≤ k ∧ k ≤ (t i).nper
+
+variable {S : Survey α τ} {Z : ZSurvey τ} {k : Int} {pv mv : List Nat} {fv : List Int}
+  {files : Nat → PlateFile α τ} {zf : Option (Nat → ZAll τ)} {tt : Option (Nat → Nat → τ)}
+
+/-- file of request i as `znum=k` sees it -/
+def zFile (files : Nat → PlateFile α τ) (zf : Option (Nat → ZAll τ)) (k : Int) (i : Nat) : PlateFile α τ :=
+  { files i with zans := zf.map (fun t => zTable (t i) k) }
+
+omit [Scalar α] in
+theorem DomainZ.toDomain (D : DomainZ S Z k pv mv fv files zf tt) :
+    Domain (withZ S Z k) pv mv fv (zFile files zf k) (zf.map (fun t i => zTable (t i) k)) tt where
+  len_mv := D.len_mv
+  len_fv := D.len_fv
+  mjd_lt := D.mjd_lt
+  file := by
+    intro i hi
+    simp only [withZ, D.file i hi, D.zall i hi, Option.map_some, Option.map_map, zFile]
+    rfl
+  fiber := D.fiber
+  rect := D.rect
+  zans := by
+    intro i _
+    simp only [zFile, Option.map_map]
+    rfl
+  tsobj := D.tsobj
+
+/-- PROPERTY (bridge).  On the domain, readspec with `znum=k` is readspec without `znum` on the survey whose
+redshift tables are the fit-k selections `row r ↦ spZall row r*nper + k-1`: the grouping, reading and
+reordering are the same computation. -/
+theorem readspec_znum_transfer (argsort : List Nat → List Nat) (D : DomainZ S Z k pv mv fv files zf tt) :
+    readspecCoreX argsort S Z (some k) pv mv fv = readspecCore argsort (withZ S Z k) pv mv fv := by
+  have hfold : (uniq (List.zipWith key pv mv)).foldlM (stepX S Z (some k) pv mv fv) none
+      = (uniq (List.zipWith key pv mv)).foldlM (step (withZ S Z k) pv mv fv) none := by
+    apply foldlM_congr_mem
+    intro u hu st
+    obtain ⟨i0, h0, rfl⟩ := (mem_keys D.len_mv u).mp hu
+    obtain ⟨d1, d2⟩ := key_decode (pv.getD i0 0) (mv.getD i0 0) (D.mjd_lt i0 h0)
+    have hsame : ∀ i ∈ idxOf pv mv (key (pv.getD i0 0) (mv.getD i0 0)), i < pv.length ∧ files i = files i0 := by
+      intro i hi
+      obtain ⟨hi1, hi2, hi3⟩ := (mem_idxOf _ i).mp hi
+      refine ⟨hi1, ?_⟩
+      have := D.file i hi1
+      rw [hi2, hi3, d1, d2, D.file i0 h0] at this
+      exact (Option.some.inj this).symm
+    apply stepX_znum_eq S Z k pv mv fv st _ (files i0)
+    · rw [d1, d2]; exact D.file i0 h0
+    · intro i hi
+      have := D.fiber i (hsame i hi).1
+      rwa [(hsame i hi).2] at this
+    · intro z hz
+      rw [d1, d2, D.zall i0 h0] at hz
+      cases hzf : zf with
+      | none => rw [hzf] at hz; cases hz
+      | some t =>
+        rw [hzf] at hz
+        simp only [Option.map_some, Option.some.injEq] at hz
+        subst hz
+        exact D.shape t hzf i0 h0
+  simp only [readspecCoreX, readspecCore, hfold]
+
+/-- PROPERTY.  `znum=k`: for EVERY request vector of the domain, row i of `zans` is fit k of fibre_i of
+(plate_i, mjd_i), i.e. row `(fibre_i - 1) * nper_i + k - 1` of that plate-MJD's spZall table; `zans` is absent
+exactly when no requested plate-MJD has an spZall file. -/
+theorem readspec_znum_row (argsort : List Nat → List Nat) (hA : IsArgsort argsort)
+    (D : DomainZ S Z k pv mv fv files zf tt) (hn : 0 < pv.length) :
+    ∃ res, readspecCoreX argsort S Z (some k) pv mv fv = .ok res ∧
+      (zf = none → res.zans = none) ∧
+      (∀ t, zf = some t → ∃ l, res.zans = some l ∧ l.length = pv.length ∧
+        ∀ i, i < pv.length →
+          l[i]? = some ((t i).row ((fv.getD i 0 - 1).toNat * (t i).nper + (k - 1).toNat))) := by
+  obtain ⟨res, h1, _, _, h4, h5, _, _⟩ := readspec_tables argsort hA D.toDomain hn
+  refine ⟨res, by rw [readspec_znum_transfer argsort D]; exact h1, ?_, ?_⟩
+  · intro h; exact h4 (by simp [h])
+  · intro t ht
+    obtain ⟨l, l1, l2, l3⟩ := h5 (fun i => zTable (t i) k) (by simp [ht])
+    exact ⟨l, l1, l2, fun i hi => by rw [l3 i hi]; rfl⟩
+
+/-- PROPERTY (`readspec_row_i` on the extended domain).  With `znum=k` the images are what they are without it:
+row i of the image of HDU h is row `fibre_i - 1` of the file of request i, right-padded with zeros to the
+longest requested pixel count. -/
+theorem readspec_row_i_znum (argsort : List Nat → List Nat) (hA : IsArgsort argsort)
+    (D : DomainZ S Z k pv mv fv files zf tt) (hn : 0 < pv.length) :
+    ∃ res w, readspecCoreX argsort S Z (some k) pv mv fv = .ok res ∧
+      (∀ i, i < pv.length → (files i).npix ≤ w) ∧ (∃ i, i < pv.length ∧ (files i).npix = w) ∧
+      res.imgs.length = imgHdus.length ∧
+      ∀ (j h : Nat), imgHdus[j]? = some h → h ≠ 7 →
+        ∃ im : Img α, res.imgs[j]? = some im ∧ im.npix = w ∧ im.rows.length = pv.length ∧
+          ∀ i, i < pv.length → im.rows[i]? =
+            some ((files i).img h ((fv.getD i 0 - 1).toNat) ++ List.replicate (w - (files i).npix) zero) := by
+  obtain ⟨res, w, h1, h2⟩ := readspec_row_i argsort hA D.toDomain hn
+  exact ⟨res, w, by rw [readspec_znum_transfer argsort D]; exact h1, h2⟩
+
+/-- PROPERTY (`loglam_rows` on the extended domain). -/
+theorem loglam_rows_znum (argsort : List Nat → List Nat) (hA : IsArgsort argsort)
+    (D : DomainZ S Z k pv mv fv files zf tt) (hn : 0 < pv.length) :
+    ∃ res w, readspecCoreX argsort S Z (some k) pv mv fv = .ok res ∧
+      (∀ i, i < pv.length → (files i).npix ≤ w) ∧ (∃ i, i < pv.length ∧ (files i).npix = w) ∧
+      ∃ im : Img α, res.imgs[6]? = some im ∧ im.npix = w ∧ im.rows.length = pv.length ∧
+        ∀ i, i < pv.length → im.rows[i]? =
+          some ((List.range (files i).npix).map (fun p => (files i).c0 + (files i).c1 * Scalar.ofNat p)
+            ++ List.replicate (w - (files i).npix) zero) := by
+  obtain ⟨res, w, h1, h2⟩ := loglam_rows argsort hA D.toDomain hn
+  exact ⟨res, w, by rw [readspec_znum_transfer argsort D]; exact h1, h2⟩
+
+/-- PROPERTY (`readspec_tables` on the extended domain).  With `znum=k` the plug-map and photo rows are what
+they are without it (the redshift rows are in `readspec_znum_row`). -/
+theorem readspec_tables_znum (argsort : List Nat → List Nat) (hA : IsArgsort argsort)
+    (D : DomainZ S Z k pv mv fv files zf tt) (hn : 0 < pv.length) :
+    ∃ res, readspecCoreX argsort S Z (some k) pv mv fv = .ok res ∧
+      res.plug.length = pv.length ∧
+      (∀ i, i < pv.length → res.plug[i]? = some ((files i).plug ((fv.getD i 0 - 1).toNat))) ∧
+      (tt = none → res.tsobj = none) ∧
+      (∀ t, tt = some t → ∃ l, res.tsobj = some l ∧ l.length = pv.length ∧
+        ∀ i, i < pv.length → l[i]? = some (t i ((fv.getD i 0 - 1).toNat))) := by
+  obtain ⟨res, h1, h2, h3, _, _, h6, h7⟩ := readspec_tables argsort hA D.toDomain hn
+  exact ⟨res, by rw [readspec_znum_transfer argsort D]; exact h1, h2, h3, h6, h7⟩
+
+/-! ### `fiber=None` -/
+
+omit [Scalar α] in
+theorem Arg.len_eq {β} (a : Arg β) : a.len = a.toList.length := by cases a <;> rfl
+
+/-- number_of_fibers for one plate: 640 before MJD 55025, otherwise N_TOTAL of the first platelist row of
+(plate, latest MJD, run2d, run1d) -/
+theorem numberOfFibers_single (latest : Nat → Nat) (pl : Option (List PlateListRow)) (r2 r1 : String) (p : Nat) :
+    (latest p < 55025 → numberOfFibers latest pl r2 r1 [p] = .ok [640]) ∧
+    (∀ rows r rest, ¬ latest p < 55025 → pl = some rows →
+      rows.filter (fun r => r.plate == p && r.mjd == latest p && r.run2d == r2 && r.run1d == r1) = r :: rest →
+      numberOfFibers latest pl r2 r1 [p] = .ok [r.ntotal]) := by
+  constructor
+  · intro h
+    simp [numberOfFibers, h]
+    rfl
+  · intro rows r rest h hpl hf
+    simp [numberOfFibers, h, hpl, hf]
+    rfl
+
+omit [Scalar α] in
+/-- PROPERTY.  What the requests are under `fiber=None` for one plate `p` (scalar or one-element vector) whose
+fibre count is `n`: `(p, mjd, 1), (p, mjd, 2), ..., (p, mjd, n)` in this order, `mjd` being the given scalar MJD
+or the latest MJD of the plate. -/
+theorem normalizeAll_single (latest : Nat → Nat) (nfOf : List Nat → Except String (List Nat)) (platein : Arg Nat)
+    (p n : Nat) (hp : platein.toList = [p]) (hnf : nfOf [p] = .ok [n]) (mjd : Option Nat) :
+    normalizeAll latest nfOf platein (mjd.map Arg.scalar)
+      = .ok (List.replicate n p, List.replicate n (mjd.getD (latest p)),
+             (List.range n).map (fun (i : Nat) => (i : Int) + 1)) := by
+  have hlen : platein.len = 1 := by rw [Arg.len_eq, hp]; rfl
+  have hc : countFor [p] [n] p = n := by simp [countFor, uniq, insertU]
+  have hu : uniq [p] = [p] := rfl
+  cases mjd with
+  | none =>
+    simp only [normalizeAll, hp, hnf, hu, hc, Option.map_none, bind, Except.bind, pure, Except.pure,
+      List.map_cons, List.map_nil, List.flatMap_cons, List.flatMap_nil, List.append_nil, List.sum_cons, List.sum_nil,
+      List.length_replicate, List.length_map, List.length_range, Nat.add_zero, Nat.sub_self, List.replicate_zero,
+      List.map_replicate, Option.getD_none]
+    rw [bcast_same _ _ (by simp)]
+  | some m =>
+    have e1 : bcast 1 [m] = .ok [m] := bcast_same _ _ rfl
+    have e2 : (Arg.scalar m : Arg Nat).len = 1 := rfl
+    have e3 : (Arg.scalar m : Arg Nat).toList = [m] := rfl
+    simp only [normalizeAll, hp, hlen, hnf, hu, hc, Option.map_some, bind, Except.bind, pure, Except.pure,
+      List.map_cons, List.map_nil, List.flatMap_cons, List.flatMap_nil, List.append_nil, List.sum_cons, List.sum_nil,
+      List.length_replicate, List.length_map, List.length_range, Nat.add_zero, Nat.sub_self, List.replicate_zero,
+      e2, e3, bne_self_eq_false, Bool.false_eq_true, if_false, e1, bcast_one, Option.getD_some]
+
+/-- PROPERTY (bridge).  `readspec(plate)` / `readspec(plate, mjd)` with `fiber=None` (any `znum`) is readspec on the
+request vector "fibres 1..n of the plate": the row theorems (`readspec_row_i`, `readspec_tables`, the `_znum`
+ones) apply to it. -/
+theorem readspec_all_fibers_requests (argsort : List Nat → List Nat) (S : Survey α τ) (Z : ZSurvey τ)
+    (files : List (Nat × Nat)) (pl : Option (List PlateListRow)) (r2 r1 : String) (platein : Arg Nat)
+    (p n : Nat) (hp : platein.toList = [p])
+    (hnf : numberOfFibers (latestMjd files) pl r2 r1 [p] = .ok [n]) (mjd : Option Nat) (znum : Option Int) :
+    readspecX argsort S Z files pl r2 r1 platein (mjd.map Arg.scalar) none znum
+      = readspecCoreX argsort S Z znum (List.replicate n p) (List.replicate n (mjd.getD (latestMjd files p)))
+          ((List.range n).map (fun (i : Nat) => (i : Int) + 1)) := by
+  simp only [readspecX, normalizeAll_single (latestMjd files) _ platein p n hp hnf mjd]
+  rfl
+
+omit [Scalar α] in
+theorem getD_replicate {β} (n i : Nat) (v d : β) (hi : i < n) : (List.replicate n v).getD i d = v := by
+  simp [List.getD_eq_getElem?_getD, hi]
+
+omit [Scalar α] in
+theorem getD_fibers (n i : Nat) (hi : i < n) :
+    ((List.range n).map (fun (i : Nat) => (i : Int) + 1)).getD i 0 = (i : Int) + 1 := by
+  simp [List.getD_eq_getElem?_getD, List.getElem?_map, List.getElem?_range hi]
+
+omit [Scalar α] in
+/-- the domain of "all fibres of one plate": n requests for the same file, fibres 1..n -/
+theorem domain_all_fibers (S : Survey α τ) (p m n : Nat) (f : PlateFile α τ) (hm : m < 2 ^ 16) (hS : S p m = some f)
+    (hnfib : n ≤ f.nfib) (hrect : ∀ h ∈ imgHdus, h ≠ 7 → ∀ r, r < f.nfib → (f.img h r).length = f.npix) :
+    Domain S (List.replicate n p) (List.replicate n m) ((List.range n).map (fun (i : Nat) => (i : Int) + 1))
+      (fun _ => f) (f.zans.map (fun t _ => t)) (f.tsobj.map (fun t _ => t)) where
+  len_mv := by simp
+  len_fv := by simp
+  mjd_lt := by
+    intro i hi
+    rw [getD_replicate _ _ _ _ (by simpa using hi)]; exact hm
+  file := by
+    intro i hi
+    have hi' : i < n := by simpa using hi
+    rw [getD_replicate _ _ _ _ hi', getD_replicate _ _ _ _ hi']; exact hS
+  fiber := by
+    intro i hi
+    have hi' : i < n := by simpa using hi
+    rw [getD_fibers n i hi']
+    constructor <;> omega
+  rect := fun _ _ => hrect
+  zans := by intro i _; cases f.zans <;> rfl
+  tsobj := by intro i _; cases f.tsobj <;> rfl
+
+/-- PROPERTY.  `fiber=None` for one plate `p` (scalar or one-element vector; `mjd` given as a scalar or found by
+latest_mjd) whose fibre count `number_of_fibers` reports as `n` (`0 < n ≤` rows of the file): readspec succeeds and
+returns exactly n rows, row i being fibre i+1 of the plate - every image row i is row i of the file's HDU,
+unpadded (`npix` pixels), plug-map / redshift / photo row i is row i of the file's table; the tables are present
+exactly when the file has them. -/
+theorem readspec_all_fibers (argsort : List Nat → List Nat) (hA : IsArgsort argsort) (S : Survey α τ) (Z : ZSurvey τ)
+    (files : List (Nat × Nat)) (pl : Option (List PlateListRow)) (r2 r1 : String) (platein : Arg Nat)
+    (p n : Nat) (hp : platein.toList = [p])
+    (hnf : numberOfFibers (latestMjd files) pl r2 r1 [p] = .ok [n]) (mjd : Option Nat) (f : PlateFile α τ)
+    (hm : mjd.getD (latestMjd files p) < 2 ^ 16) (hS : S p (mjd.getD (latestMjd files p)) = some f)
+    (hn : 0 < n) (hnfib : n ≤ f.nfib)
+    (hrect : ∀ h ∈ imgHdus, h ≠ 7 → ∀ r, r < f.nfib → (f.img h r).length = f.npix) :
+    ∃ res, readspecX argsort S Z files pl r2 r1 platein (mjd.map Arg.scalar) none none = .ok res ∧
+      res.imgs.length = imgHdus.length ∧
+      (∀ (j h : Nat), imgHdus[j]? = some h → h ≠ 7 →
+        ∃ im : Img α, res.imgs[j]? = some im ∧ im.npix = f.npix ∧ im.rows.length = n ∧
+          ∀ i, i < n → im.rows[i]? = some (f.img h i)) ∧
+      res.plug.length = n ∧ (∀ i, i < n → res.plug[i]? = some (f.plug i)) ∧
+      (f.zans = none → res.zans = none) ∧
+      (∀ t, f.zans = some t → ∃ l, res.zans = some l ∧ l.length = n ∧ ∀ i, i < n → l[i]? = some (t i)) ∧
+      (f.tsobj = none → res.tsobj = none) ∧
+      (∀ t, f.tsobj = some t → ∃ l, res.tsobj = some l ∧ l.length = n ∧ ∀ i, i < n → l[i]? = some (t i)) := by
+  have D := domain_all_fibers S p _ n f hm hS hnfib hrect
+  have hlen : (List.replicate n p).length = n := by simp
+  have hrow : ∀ i, i < n →
+      (((List.range n).map (fun (i : Nat) => (i : Int) + 1)).getD i 0 - 1).toNat = i := by
+    intro i hi; rw [getD_fibers n i hi]; omega
+  obtain ⟨res, w, h1, h2, ⟨i0, _, h3⟩, h4, h5⟩ := readspec_row_i argsort hA D (by simpa using hn)
+  obtain ⟨res', t1, t2, t3, t4, t5, t6, t7⟩ := readspec_tables argsort hA D (by simpa using hn)
+  have hres : res' = res := by rw [h1] at t1; exact (Except.ok.inj t1).symm
+  subst hres
+  subst h3
+  rw [hlen] at h5 t2 t3 t5 t7
+  refine ⟨res', ?_, h4, ?_, t2, ?_, ?_, ?_, ?_, ?_⟩
+  · rw [readspec_all_fibers_requests argsort S Z files pl r2 r1 platein p n hp hnf mjd none, readspecCoreX_none]
+    exact h1
+  · intro j h hj h7
+    obtain ⟨im, i1, i2, i3, i4⟩ := h5 j h hj h7
+    refine ⟨im, i1, i2, i3, ?_⟩
+    intro i hi
+    rw [i4 i hi, hrow i hi]
+    simp
+  · intro i hi; rw [t3 i hi, hrow i hi]
+  · intro hz; exact t4 (by simp [hz])
+  · intro t ht
+    obtain ⟨l, l1, l2, l3⟩ := t5 (fun _ => t) (by simp [ht])
+    exact ⟨l, l1, l2, fun i hi => by rw [l3 i hi, hrow i hi]⟩
+  · intro hz; exact t6 (by simp [hz])
+  · intro t ht
+    obtain ⟨l, l1, l2, l3⟩ := t7 (fun _ => t) (by simp [ht])
+    exact ⟨l, l1, l2, fun i hi => by rw [l3 i hi, hrow i hi]⟩
+
+end Ext
+
+/-! ### `fiber=None`, several distinct plates -/
+
+theorem insertU_perm (x : Nat) (l : List Nat) (h : x ∉ l) : (insertU x l).Perm (x :: l) := by
+  induction l with
+  | nil => simp [insertU]
+  | cons y ys ih =>
+    have hy : x ≠ y := fun e => h (by simp [e])
+    have hys : x ∉ ys := fun e => h (by simp [e])
+    simp only [insertU, if_neg hy]
+    split
+    · exact List.Perm.refl _
+    · exact ((ih hys).cons y).trans (List.Perm.swap x y ys)
+
+/-- np.unique of distinct values is a (sorted) permutation of them -/
+theorem uniq_perm (l : List Nat) (h : l.Nodup) : (uniq l).Perm l := by
+  induction l with
+  | nil => exact List.Perm.refl _
+  | cons y ys ih =>
+    have hn := List.nodup_cons.mp h
+    have : uniq (y :: ys) = insertU y (uniq ys) := rfl
+    rw [this]
+    exact (insertU_perm y _ (fun e => hn.1 ((mem_uniq y ys).mp e))).trans ((ih hn.2).cons y)
+
+theorem uniq_const (v : Nat) (l : List Nat) (hne : l ≠ []) (h : ∀ x ∈ l, x = v) : uniq l = [v] := by
+  induction l with
+  | nil => contradiction
+  | cons y ys ih =>
+    have hy : y = v := h y (by simp)
+    subst hy
+    have : uniq (y :: ys) = insertU y (uniq ys) := rfl
+    rw [this]
+    cases ys with
+    | nil => rfl
+    | cons a as =>
+      rw [ih (by simp) (fun x hx => h x (by simp [hx]))]
+      simp [insertU]
+
+theorem zip_map_self {β} (ps : List Nat) (nf : Nat → β) : ps.zip (ps.map nf) = ps.map (fun p => (p, nf p)) := by
+  induction ps with
+  | nil => rfl
+  | cons p ps ih => simp [ih]
+
+theorem countFor_map (ps : List Nat) (nf : Nat → Nat) (p : Nat) (hp : p ∈ ps) :
+    countFor ps (ps.map nf) p = nf p := by
+  unfold countFor
+  rw [zip_map_self, uniq_const (nf p)]
+  · rfl
+  · intro he
+    have : (p, nf p) ∈ (ps.map (fun p => (p, nf p))).filter (fun x => x.1 == p) := by
+      simp only [List.mem_filter, List.mem_map, beq_self_eq_true, and_true]; exact ⟨p, hp, rfl⟩
+    have := List.mem_map_of_mem (f := fun x : Nat × Nat => x.2) this
+    rw [he] at this; cases this
+  · intro x hx
+    simp only [List.mem_map, List.mem_filter] at hx
+    obtain ⟨a, ⟨⟨q, _, rfl⟩, ha⟩, rfl⟩ := hx
+    have : q = p := by simpa using ha
+    rw [this]
+
+/-- PROPERTY.  What the requests are under `fiber=None` for a vector of DISTINCT plates (any order) whose fibre
+counts are `nf p`: the plates in ascending order, for each plate the fibres 1..nf p in order, MJD = the latest of
+the plate. -/
+theorem normalizeAll_distinct (latest : Nat → Nat) (nfOf : List Nat → Except String (List Nat))
+    (ps : List Nat) (nf : Nat → Nat) (hd : ps.Nodup) (hnf : nfOf ps = .ok (ps.map nf)) :
+    normalizeAll latest nfOf (.vec ps) none
+      = .ok ((uniq ps).flatMap (fun p => List.replicate (nf p) p),
+             ((uniq ps).flatMap (fun p => List.replicate (nf p) p)).map latest,
+             (uniq ps).flatMap (fun p => (List.range (nf p)).map (fun (i : Nat) => (i : Int) + 1))) := by
+  have hblocks : (uniq ps).map (fun p => (p, countFor ps (ps.map nf) p)) = (uniq ps).map (fun p => (p, nf p)) := by
+    apply List.map_congr_left
+    intro p hp
+    rw [countFor_map ps nf p ((mem_uniq p ps).mp hp)]
+  have hsum : (ps.map nf).sum = ((uniq ps).map nf).sum := ((uniq_perm ps hd).map nf).sum_nat.symm
+  have hl1 : ((uniq ps).flatMap (fun p => List.replicate (nf p) p)).length = ((uniq ps).map nf).sum := by
+    simp [List.length_flatMap]
+  have hl2 : ((uniq ps).flatMap (fun p => (List.range (nf p)).map (fun (i : Nat) => (i : Int) + 1))).length
+      = ((uniq ps).map nf).sum := by
+    simp [List.length_flatMap]
+  simp only [normalizeAll, Arg.toList, hnf, hblocks, bind, Except.bind, pure, Except.pure,
+    List.flatMap_map, hsum, hl1, hl2, Nat.sub_self, List.replicate_zero, List.append_nil]
+  rw [bcast_same _ _ (by simp)]
+
+/-- the request vectors of `fiber=None` for the (sorted, distinct) plates `us` with fibre counts `nf` -/
+def allPlates (us : List Nat) (nf : Nat → Nat) : List Nat := us.flatMap (fun p => List.replicate (nf p) p)
+def allFibers (us : List Nat) (nf : Nat → Nat) : List Int :=
+  us.flatMap (fun p => (List.range (nf p)).map (fun (i : Nat) => (i : Int) + 1))
+
+theorem allPlates_length (us : List Nat) (nf : Nat → Nat) : (allPlates us nf).length = (us.map nf).sum := by
+  simp [allPlates, List.length_flatMap]
+
+theorem allFibers_length (us : List Nat) (nf : Nat → Nat) : (allFibers us nf).length = (us.map nf).sum := by
+  simp [allFibers, List.length_flatMap]
+
+theorem getD_append_left' {β} (a b : List β) (i : Nat) (d : β) (h : i < a.length) : (a ++ b).getD i d = a.getD i d := by
+  simp [List.getD_eq_getElem?_getD, List.getElem?_append_left h]
+
+theorem getD_append_right' {β} (a b : List β) (i : Nat) (d : β) (h : a.length ≤ i) :
+    (a ++ b).getD i d = b.getD (i - a.length) d := by
+  simp [List.getD_eq_getElem?_getD, List.getElem?_append_right h]
+
+/-- layout of the `fiber=None` request vectors: position i is (plate p, fibre j+1) for some plate p of the list and
+some j < nf p (blocks in the order of the list, fibres ascending inside a block) -/
+theorem all_fibers_layout (us : List Nat) (nf : Nat → Nat) (i : Nat) (hi : i < (allPlates us nf).length) :
+    ∃ p ∈ us, ∃ j, j < nf p ∧ (allPlates us nf).getD i 0 = p ∧ (allFibers us nf).getD i 0 = (j : Int) + 1 := by
+  induction us generalizing i with
+  | nil => simp [allPlates] at hi
+  | cons q rest ih =>
+    have e1 : allPlates (q :: rest) nf = List.replicate (nf q) q ++ allPlates rest nf := by simp [allPlates]
+    have e2 : allFibers (q :: rest) nf
+        = (List.range (nf q)).map (fun (i : Nat) => (i : Int) + 1) ++ allFibers rest nf := by simp [allFibers]
+    by_cases h : i < nf q
+    · refine ⟨q, by simp, i, h, ?_, ?_⟩
+      · rw [e1, getD_append_left' _ _ _ _ (by simpa using h), getD_replicate _ _ _ _ h]
+      · rw [e2, getD_append_left' _ _ _ _ (by simpa using h), getD_fibers _ _ h]
+    · have hi' : i - nf q < (allPlates rest nf).length := by
+        rw [e1] at hi; simp at hi; omega
+      obtain ⟨p, hp, j, hj, g1, g2⟩ := ih (i - nf q) hi'
+      refine ⟨p, by simp [hp], j, hj, ?_, ?_⟩
+      · rw [e1, getD_append_right' _ _ _ _ (by simp; omega)]; simpa using g1
+      · rw [e2, getD_append_right' _ _ _ _ (by simp; omega)]; simpa using g2
+
+section ExtPlates
+variable {α τ : Type} [Scalar α]
+
+omit [Scalar α] in
+/-- the domain of "all fibres of several plates": `F p` is the file of plate p at its latest MJD -/
+theorem domain_all_fibers_plates (S : Survey α τ) (latest : Nat → Nat) (us : List Nat) (nf : Nat → Nat)
+    (F : Nat → PlateFile α τ) (ztP ttP : Option (Nat → Nat → τ))
+    (hF : ∀ p ∈ us, latest p < 2 ^ 16 ∧ S p (latest p) = some (F p) ∧ nf p ≤ (F p).nfib ∧
+      (∀ h ∈ imgHdus, h ≠ 7 → ∀ r, r < (F p).nfib → ((F p).img h r).length = (F p).npix) ∧
+      (F p).zans = ztP.map (fun t => t p) ∧ (F p).tsobj = ttP.map (fun t => t p)) :
+    Domain S (allPlates us nf) ((allPlates us nf).map latest) (allFibers us nf)
+      (fun i => F ((allPlates us nf).getD i 0))
+      (ztP.map (fun t i => t ((allPlates us nf).getD i 0))) (ttP.map (fun t i => t ((allPlates us nf).getD i 0))) := by
+  have hm : ∀ i, i < (allPlates us nf).length →
+      ((allPlates us nf).map latest).getD i 0 = latest ((allPlates us nf).getD i 0) := by
+    intro i hi
+    simp [List.getD_eq_getElem?_getD, List.getElem?_eq_getElem hi]
+  refine ⟨by simp, by rw [allFibers_length, allPlates_length], ?_, ?_, ?_, ?_, ?_, ?_⟩
+  · intro i hi
+    obtain ⟨p, hp, j, hj, g1, g2⟩ := all_fibers_layout us nf i hi
+    rw [hm i hi, g1]; exact (hF p hp).1
+  · intro i hi
+    obtain ⟨p, hp, j, hj, g1, g2⟩ := all_fibers_layout us nf i hi
+    rw [hm i hi, g1]; exact (hF p hp).2.1
+  · intro i hi
+    obtain ⟨p, hp, j, hj, g1, g2⟩ := all_fibers_layout us nf i hi
+    have := (hF p hp).2.2.1
+    simp only [g1, g2]
+    constructor <;> omega
+  · intro i hi
+    obtain ⟨p, hp, j, hj, g1, g2⟩ := all_fibers_layout us nf i hi
+    simp only [g1]; exact (hF p hp).2.2.2.1
+  · intro i hi
+    obtain ⟨p, hp, j, hj, g1, g2⟩ := all_fibers_layout us nf i hi
+    simp only [Option.map_map, Function.comp_def, g1]; exact (hF p hp).2.2.2.2.1
+  · intro i hi
+    obtain ⟨p, hp, j, hj, g1, g2⟩ := all_fibers_layout us nf i hi
+    simp only [Option.map_map, Function.comp_def, g1]; exact (hF p hp).2.2.2.2.2
+
+/-- PROPERTY.  `fiber=None` for a vector of DISTINCT plates (any order; counts `nf p` with `0 <` some count, files
+`F p` at the latest MJD): readspec is readspec on the vectors `allPlates` / `allFibers` of the ascending plates, these
+satisfy `Domain` - so `readspec_row_i`, `loglam_rows` and `readspec_tables` hold for it - and position i of the
+request vector is (plate p, fibre j+1) as laid out by `all_fibers_layout`: plates ascending, fibres 1..nf p in order. -/
+theorem readspec_all_fibers_plates (argsort : List Nat → List Nat) (S : Survey α τ) (Z : ZSurvey τ)
+    (files : List (Nat × Nat)) (pl : Option (List PlateListRow)) (r2 r1 : String)
+    (ps : List Nat) (nf : Nat → Nat) (F : Nat → PlateFile α τ) (ztP ttP : Option (Nat → Nat → τ)) (hd : ps.Nodup)
+    (hnf : numberOfFibers (latestMjd files) pl r2 r1 ps = .ok (ps.map nf))
+    (hF : ∀ p ∈ ps, latestMjd files p < 2 ^ 16 ∧ S p (latestMjd files p) = some (F p) ∧ nf p ≤ (F p).nfib ∧
+      (∀ h ∈ imgHdus, h ≠ 7 → ∀ r, r < (F p).nfib → ((F p).img h r).length = (F p).npix) ∧
+      (F p).zans = ztP.map (fun t => t p) ∧ (F p).tsobj = ttP.map (fun t => t p)) :
+    readspecX argsort S Z files pl r2 r1 (.vec ps) none none none
+      = readspecCore argsort S (allPlates (uniq ps) nf) ((allPlates (uniq ps) nf).map (latestMjd files))
+          (allFibers (uniq ps) nf) ∧
+    Domain S (allPlates (uniq ps) nf) ((allPlates (uniq ps) nf).map (latestMjd files)) (allFibers (uniq ps) nf)
+      (fun i => F ((allPlates (uniq ps) nf).getD i 0))
+      (ztP.map (fun t i => t ((allPlates (uniq ps) nf).getD i 0)))
+      (ttP.map (fun t i => t ((allPlates (uniq ps) nf).getD i 0))) ∧
+    (uniq ps).Pairwise (· < ·) ∧ (∀ p, p ∈ uniq ps ↔ p ∈ ps) := by
+  refine ⟨?_, ?_, pairwise_uniq ps, fun p => mem_uniq p ps⟩
+  · simp only [readspecX, normalizeAll_distinct (latestMjd files) _ ps nf hd hnf, readspecCoreX_none]
+    rfl
+  · exact domain_all_fibers_plates S (latestMjd files) (uniq ps) nf F ztP ttP
+      (fun p hp => hF p ((mem_uniq p ps).mp hp))
+
+end ExtPlates
+
 /-! ## non-vacuity: the hypotheses are satisfiable by a non-trivial request -/
 
 /-- a survey in which plate p (any MJD) has p+2 pixels, 3 fibres, no spZbest, a photoPlate table -/
@@ -862,6 +1486,40 @@ example : Domain (fun p _ => some (exFile p)) [3, 1, 3, 1] [52000, 51999, 51000,
   tsobj := fun _ _ => rfl
 
 example : IsArgsort argsortImpl := argsortImpl_isArgsort
+
+/-- spZall of the example survey: 3 fibres x 2 fits, row (fibre-1)*2 + fit-1 -/
+def exZ (p : Nat) : ZAll Nat := ⟨2, 6, fun r => 1000 * p + r⟩
+
+/-- the same four scrambled requests with `znum=2` (spZall for every plate; the survey has no spZbest at all) -/
+example : DomainZ (fun p _ => some (exFile p)) (fun p _ => some (exZ p)) 2 [3, 1, 3, 1] [52000, 51999, 51000, 51999]
+    [2, 1, 3, 1] (fun i => exFile ([3, 1, 3, 1].getD i 0)) (some (fun i => exZ ([3, 1, 3, 1].getD i 0)))
+    (some (fun _ r => 100 + r)) where
+  len_mv := rfl
+  len_fv := rfl
+  mjd_lt := by decide
+  file := fun _ _ => rfl
+  fiber := by decide
+  rect := by intro i _ h _ _ r _; simp [exFile]
+  tsobj := fun _ _ => rfl
+  zall := fun _ _ => rfl
+  shape := by
+    intro t ht i hi
+    cases ht
+    exact ⟨rfl, by decide, by simp [exZ]⟩
+
+/-- `fiber=None`: the hypotheses of `readspec_all_fibers` are met by a BOSS plate with a platelist row (3 fibres) ... -/
+example : numberOfFibers (latestMjd [(7, 56000), (7, 55900)])
+    (some [⟨7, 56000, "x", "r1d", 9⟩, ⟨7, 56000, "r2d", "r1d", 3⟩]) "r2d" "r1d" [7] = .ok [3] := by rfl
+/-- ... and by an SDSS-I/II plate (640 fibres, no platelist) -/
+example : numberOfFibers (latestMjd [(266, 51630), (266, 51602)]) none "26" "" [266] = .ok [640] := by rfl
+example : (exFile 7).nfib = 3 ∧ latestMjd [(7, 56000), (7, 55900)] 7 = 56000 := by decide
+/-- two distinct plates in descending order: the hypothesis `hnf` of `readspec_all_fibers_plates` / `normalizeAll_distinct` -/
+example : numberOfFibers (latestMjd [(7, 56000), (3, 56100)])
+    (some [⟨3, 56100, "r2d", "r1d", 2⟩, ⟨7, 56000, "r2d", "r1d", 3⟩]) "r2d" "r1d" [7, 3]
+      = .ok ([7, 3].map (fun p => if p == 7 then 3 else 2)) := by rfl
+example : allPlates (uniq [7, 3]) (fun p => if p == 7 then 3 else 2) = [3, 3, 7, 7, 7] ∧
+    allFibers (uniq [7, 3]) (fun p => if p == 7 then 3 else 2) = [1, 2, 1, 2, 3] := by decide
+
 
 /-- spec_append of the repository test, positive and negative shift, evaluated by the model -/
 example : (specAppend (0 : Int) ⟨3, [[1, 1, 1], [1, 1, 1]]⟩ ⟨3, [[2, 2, 2]]⟩ (-2)).rows
